@@ -81,6 +81,9 @@ type Ctx struct {
 	specDeclared    map[string]bool
 	curWriteKeys    []string // stack of "frame:block" keys currently executing (for attributing writes)
 	nopanic         bool
+	lockCheck       bool // generate lock-discipline obligations (C25)
+	lockOnly        bool // the unit is a lock-discipline sweep unit: only guard obligations and lock preconditions are kept
+	nguard          int
 	panicCount      map[string]int
 	preCount        map[string]int
 	fset            *token.FileSet
@@ -343,7 +346,8 @@ func (c *Ctx) heapGet(st *State, name string) *Term {
 }
 
 func (c *Ctx) noteWrite(name string) {
-	if c.noNote > 0 {
+	if c.noNote > 0 || strings.HasPrefix(name, "lock!") {
+		// the ghost lock-set is not part of a loop's write set: loop bodies are assumed lock-balanced
 		return
 	}
 	for _, k := range c.curWriteKeys {
@@ -440,6 +444,10 @@ func (c *Ctx) havocAll(st *State) {
 			continue
 		}
 		if c.constGlobals[n] != nil {
+			continue
+		}
+		if strings.HasPrefix(n, "lock!") {
+			// callees are assumed lock-balanced: they release what they acquire and leave the caller's locks alone
 			continue
 		}
 		c.heapHavoc(st, n)
